@@ -39,7 +39,7 @@ type c09World struct {
 	cleanup func()
 }
 
-func c09NewWorld(t *testing.T, backend string) (*c09World, error) {
+func c09NewWorld(t *testing.T, backend string, noNodeID bool) (*c09World, error) {
 	ctx, cancel := context.WithCancel(context.Background())
 	w := &c09World{name: backend}
 	var closers []func()
@@ -88,6 +88,10 @@ func c09NewWorld(t *testing.T, backend string) (*c09World, error) {
 	default:
 		cancel()
 		return nil, fmt.Errorf("unknown backend %s", backend)
+	}
+	if noNodeID {
+		// a server without a configured node id (SetNodeID never called / empty id)
+		w.node.SM.SetNodeID("")
 	}
 	return w, nil
 }
@@ -165,7 +169,7 @@ func TestVerifC09Lifecycle(t *testing.T) {
 	vk.Quiet()
 	run := vk.Start(t, "C09", "bridge-lifecycle")
 	defer run.Finish()
-	run.Rule("per case: backend x ending (target-closes | source-closes-after-target | node-cancelled-before-target | dup-race = 2-4 concurrent + 1 sequential duplicate source opens for one tunnel id, then node-cancelled) x tunnel-id/target-host/port shape; real TunnelOpen through SessionManager.HandlePacket; " +
+	run.Rule("per case: backend x ending (target-closes | source-closes-after-target | node-cancelled-before-target | dup-race = 2-4 concurrent + 1 sequential duplicate source opens for one tunnel id, then node-cancelled) x node id (configured | unset) x tunnel-id/target-host/port shape; real TunnelOpen through SessionManager.HandlePacket; " +
 		"lookups through a second RoutingTable (other node) on the same store; distinct = (backend, ending, host index, port index)")
 	r := run.Rand("lifecycle")
 	n := run.Pick(160, 1600)
@@ -182,12 +186,16 @@ func TestVerifC09Lifecycle(t *testing.T) {
 		if r.Intn(3) == 0 {
 			tid = fmt.Sprintf("隧道 \"%d\\😀-%d", i, r.Int63())
 		}
-		sig := fmt.Sprintf("%s|%s", backend, ending)
-		detail := map[string]any{"case": i, "backend": backend, "ending": ending, "tunnel_id": tid, "host_index": hi, "port": c09LPorts[pi]}
+		nodeMode := "configured"
+		if (i/(len(backends)*len(endings)))%2 == 1 {
+			nodeMode = "unset"
+		}
+		sig := fmt.Sprintf("%s|%s|node_id=%s", backend, ending, nodeMode)
+		detail := map[string]any{"case": i, "backend": backend, "ending": ending, "node_id": nodeMode, "tunnel_id": tid, "host_index": hi, "port": c09LPorts[pi]}
 		run.Case(sig, detail)
 		c09LifecycleCase(t, run, r, backend, ending, tid, c09Hosts[hi], c09LPorts[pi], detail)
 		run.Eval(1)
-		run.Distinct(fmt.Sprintf("%s|%s|h%d|p%d", backend, ending, hi, pi))
+		run.Distinct(fmt.Sprintf("%s|%s|%s|h%d|p%d", backend, ending, nodeMode, hi, pi))
 	}
 	// a watchdog or a broken setup makes the run inconclusive, never a violation
 	var inconclusive int64
@@ -206,6 +214,9 @@ func TestVerifC09Lifecycle(t *testing.T) {
 		}
 		run.Floor("duplicate_opens_survived|"+b, int64(n/10))
 	}
+	for _, e := range endings {
+		run.Floor("ended_not_resolving|node_id_unset|"+e, int64(n/20))
+	}
 	// non-vacuity of the race: duplicate opens really reached startSourceBridge's own bridge-exists check
 	run.Floor("race_loser_rejected_in_startSourceBridge", int64(n/40))
 	{
@@ -217,7 +228,8 @@ func c09LifecycleCase(t *testing.T, run *vk.Run, rng *rand.Rand, backend, ending
 		run.Count("watchdog_previous_lifecycle", 1)
 		return
 	}
-	w, err := c09NewWorld(t, backend)
+	noNodeID := detail["node_id"] == "unset"
+	w, err := c09NewWorld(t, backend, noNodeID)
 	if err != nil {
 		run.Count("world_setup_failed", 1)
 		return
@@ -261,7 +273,8 @@ func c09LifecycleCase(t *testing.T, run *vk.Run, rng *rand.Rand, backend, ending
 			if st.MappingID != mapping.ID {
 				diff = append(diff, "MappingID")
 			}
-			if st.SourceNodeID != "node-a" {
+			// without a configured node id there is no "correct source node" to compare with
+			if !noNodeID && st.SourceNodeID != "node-a" {
 				diff = append(diff, "SourceNodeID")
 			}
 			if st.SourceClientID != src.ClientID {
@@ -414,9 +427,12 @@ func c09LifecycleCase(t *testing.T, run *vk.Run, rng *rand.Rand, backend, ending
 		// evidence only (does not change the verdict): does the record go away a little later?
 		time.Sleep(300 * time.Millisecond)
 		_, err2 := w.other.LookupWaitingTunnel(ctx, tid)
-		run.Violation("C09:lifecycle|stale-after-bridge-end|backend="+backend+"|ending="+ending, map[string]any{"case": detail, "got": fmt.Sprintf("%+v", *st),
+		run.Violation("C09:lifecycle|stale-after-bridge-end|backend="+backend+"|ending="+ending+"|node_id="+fmt.Sprint(detail["node_id"]), map[string]any{"case": detail, "got": fmt.Sprintf("%+v", *st),
 			"still_resolves_300ms_later": err2 == nil, "lifecycle_goroutines_now": c09LifecycleRunning(), "frames": vk.FrameSummary(vk.Goroutines())})
 		return
 	}
 	run.Count("ended_not_resolving|"+backend+"|"+ending, 1)
+	if noNodeID {
+		run.Count("ended_not_resolving|node_id_unset|"+ending, 1)
+	}
 }
